@@ -5,8 +5,18 @@ use ohkami_lib::{CowSlice, Slice, map::TupleMap};
 
 pub struct Headers {
     standard: IndexMap<N_CLIENT_HEADERS, CowSlice>,
-    custom:   Option<Box<TupleMap<Slice, CowSlice>>>,
+    custom:   Option<Box<TupleMap<Name, CowSlice>>>,
 }
+
+/// the name of a header outside the standard table: compared in any letter case, as every field name is (RFC 9110 5.1)
+pub(crate) struct Name(Slice);
+impl PartialEq for Name {
+    #[inline]
+    fn eq(&self, other: &Self) -> bool {
+        unsafe {self.0.as_bytes()}.eq_ignore_ascii_case(unsafe {other.0.as_bytes()})
+    }
+}
+
 
 pub struct SetHeaders<'set>(
     &'set mut Headers
@@ -107,7 +117,7 @@ pub trait CustomHeadersAction<'set> {
         fn perform(self, set: SetHeaders<'set>, key: &'static str) -> SetHeaders<'set> {
             match self {
                 None => if let Some(c) = &mut set.0.custom {
-                    c.remove(Slice::from_bytes(key.as_bytes()));
+                    c.remove(Name(Slice::from_bytes(key.as_bytes())));
                 }
                 Some(v) => set.0.insert_custom(
                     Slice::from_bytes(key.as_bytes()),
@@ -210,9 +220,9 @@ macro_rules! Header {
             }
             pub fn get(&self, name: &str) -> Option<&str> {
                 let value = self.custom.as_ref()
-                    .and_then(|c| c.get(&Slice::from_bytes(name.as_bytes())))
+                    .and_then(|c| c.get(&Name(Slice::from_bytes(name.as_bytes()))))
                     .or_else(|| {
-                        let standard = Header::from_bytes(name.as_bytes())?;
+                        let standard = Header::from_bytes_ignore_case(name.as_bytes())?;
                         unsafe {self.standard.get(standard as usize)}
                     })?;
                 Some(std::str::from_utf8(unsafe {value.as_bytes()}).expect("Header value is not UTF-8"))
@@ -299,7 +309,7 @@ impl Headers {
             .chain(self.custom.as_ref()
                 .into_iter()
                 .flat_map(|hm| hm.iter().map(|(k, v)| (
-                    std::str::from_utf8(unsafe {k.as_bytes()}).expect("Header value is not UTF-8"),
+                    std::str::from_utf8(unsafe {k.0.as_bytes()}).expect("Header value is not UTF-8"),
                     std::str::from_utf8(unsafe {v.as_bytes()}).expect("Header value is not UTF-8"),
                 )))
             )
@@ -342,9 +352,9 @@ impl Headers {
 impl Headers {
     #[inline] pub(crate) fn insert_custom(&mut self, name: Slice, value: CowSlice) {
         match &mut self.custom {
-            Some(c) => {c.insert(name, value);}
+            Some(c) => {c.insert(Name(name), value);}
             None => self.custom = Some(Box::new(TupleMap::from_iter([
-                (name, value)
+                (Name(name), value)
             ])))
         }
     }
@@ -359,6 +369,7 @@ impl Headers {
         }
 
         let c = unsafe {self.custom.as_mut().unwrap_unchecked()};
+        let name = Name(name);
 
         match c.get_mut(&name) {
             Some(v) => unsafe {
